@@ -517,6 +517,9 @@ def specs(tier):
         ops.SkipUntilSpec(), ops.RegexNodeSpec("RegexExpression"), ops.RegexNodeSpec("OptimizedChoice"),
         *templates.skipuntil_templates(), *templates.regex_node_templates(), *ops.bounded_repeat_specs(),
         UnrollArms(), SkipArms(), InlineArms(), SquashArms(), SkipRuleArms(), LazyPatternsCompile(), PassCoverage(),
+        # the character classes squash_choice / the SKIP fusion compile (catalogue + generated family, each decided for all
+        # code points): C12's contract, re-proved here - a second-round seed in _optimize_char_class passed C02 without it
+        c12.OptimizedClasses(),
     ]
 
 
@@ -526,7 +529,7 @@ concretise = concretise_ops(PROPERTY, default_modes=("interp", "interp+opt", "ge
 def differential() -> dict:
     from replay import diff4
 
-    fams = ["optimizer_skip", "optimizer_squash", "optimizer_inline", "trivia", "rule"]
+    fams = ["optimizer_skip", "optimizer_squash", "optimizer_ranges", "optimizer_inline", "trivia", "rule"]
     kc = groups.known_cases(PROPERTY)
     skip = {(c["grammar"], c["text"]) for c in kc.values()} | {(c["grammar"], c["text"]) for c in groups.known_cases("C04").values()}
     res = diff4.search(fams, diff4.MODES, limit=3, skip=skip)
